@@ -3170,3 +3170,46 @@ func stageGuarded(fn, host *ssa.Function, at *ssa.BasicBlock, pred func(eng.Fact
 	}
 	return true
 }
+
+// R8.7 [C08]
+func ruleFontSizeUnderRotation(c *eng.Ctx) {
+	const R = "R8.7-FONT-SIZE-UNDER-ROTATION"
+	c.Rule(R, "the scale GetEffectiveFontSize takes from the text matrix is the length of a transformed unit vector: the value it returns is computed from both components of the image of the baseline direction (a and b) or both components of the image of the perpendicular (c and d). A scale read off the diagonal (a and d alone) is cos(angle) times too small for rotated text and 0 at a right angle", 1, 0)
+	fn := c.P.Func("graphicsstate.(*GraphicsState).GetEffectiveFontSize")
+	if fn == nil {
+		c.Undec(R, "graphicsstate.(*GraphicsState).GetEffectiveFontSize", token.NoPos, "anchor not found")
+		return
+	}
+	used := map[int64]bool{}
+	for _, r := range eng.Returns(fn) {
+		for _, res := range r.Results {
+			for w := range eng.SliceInter(res, func(*ssa.Call) bool { return true }, eng.Cluster(fn, 1)) {
+				var base, index ssa.Value
+				switch x := w.(type) {
+				case *ssa.IndexAddr:
+					base, index = x.X, x.Index
+				case *ssa.Index:
+					base, index = x.X, x.Index
+				default:
+					continue
+				}
+				k, isC := eng.ConstInt(index)
+				if !isC {
+					continue
+				}
+				for v := range eng.Slice(base, nil) {
+					if fr, ok := eng.AsField(v); ok && fr.Field == "TextMatrix" {
+						used[k] = true
+					}
+				}
+			}
+		}
+	}
+	var ks []string
+	for k := range used {
+		ks = append(ks, fmt.Sprint(k))
+	}
+	sort.Strings(ks)
+	ok := (used[0] && used[1]) || (used[2] && used[3])
+	c.Check(ok, R, "graphicsstate.(*GraphicsState).GetEffectiveFontSize#components", fn.Pos(), "uses components "+strings.Join(ks, ",")+" of the text matrix", "the font size is scaled by components "+strings.Join(ks, ",")+" of the text matrix only: neither (a,b) nor (c,d) is complete, so text under a rotated text matrix is reported too small (0 at 90 degrees)")
+}
